@@ -141,6 +141,9 @@ def pairs(tier):
         ("remove-vs-read", [("remove", a), ("read", a)]),
         ("remove_hash-vs-read", [("remove_hash", "x"), ("read", a)]),
         ("remove-vs-list", [("remove", a), ("list",)]),
+        ("remove_hash-vs-remove_hash", [("remove_hash", "x"), ("remove_hash", "x")]),
+        ("remove_hash-vs-read_hash", [("remove_hash", "x"), ("read_hash", "x")]),
+        ("remove_hash-vs-exists", [("remove_hash", "x"), ("exists", "x")]),
     ]
     if tier == "quick":
         return cur
@@ -171,9 +174,22 @@ def scenarios(tier):
     out = []
     quick = tier == "quick"
 
-    def add(name, ops, init, flavour, bound, threads=False):
-        out.append({"id": len(out), "name": name, "ops": ops, "init": init, "flavour": flavour, "bound": bound, "threads": threads})
+    def add(name, ops, init, flavour, bound, threads=False, por=False):
+        assert not por or (bound is None and not threads)   # the reduction is only sound without a bound and between separate processes
+        out.append({"id": len(out), "name": name + ("/por" if por else ""), "ops": ops, "init": init, "flavour": flavour, "bound": bound, "threads": threads, "por": por})
 
+    exp = os.environ.get("VERIF_C07_EXPERIMENT")
+    if exp:
+        # development aid: the named pairs without a bound, by brute force and with the sleep-set reduction, side by side
+        byname = dict(pairs("thorough"))
+        for nm in exp.split(","):
+            init = "warm"
+            if nm.endswith("@cold"):
+                nm, init = nm[:-5], "cold"
+            if not nm.endswith("!"):
+                add(nm, byname[nm], init, "sync", None)
+            add(nm.rstrip("!"), byname[nm.rstrip("!")], init, "sync", None, por=True)
+        return out
     for name, ops in pairs(tier):
         for init in ("cold", "warm"):
             add(name, ops, init, "sync", 2 if quick else 3)
@@ -305,6 +321,10 @@ def worker(ctx, job):
                 break   # for triples the first explaining order is enough (6 permutations x observation vector)
             continue
         last_diff = scratch["violations"][0]
+    if os.environ.get("VERIF_C07_EXPERIMENT"):
+        import re as _re
+        fp = V.h(fsutil.canon(fsutil.snapshot(cache)), _re.sub(r"\d{13,}", "T", json.dumps(replies, sort_keys=True)))
+        res["extra"]["fp:%s" % sc["name"]] = [fp]
     outcome = "explained-by-serial-order:%s" % ("+".join(all_accepted) if all_accepted else "NONE")
     V.outcome(res, outcome)
     res["distinct"].add(V.h(sc["id"], tuple(d["chosen"] for d in rep["decisions"])))
@@ -314,7 +334,12 @@ def worker(ctx, job):
         if order_ran is not None:
             what = "sequential run in order %s disagrees with the model: " % (order_ran,) + what
         V.violation(res, "sched:%s/%s%s:not-serialisable" % (sc["name"], sc["flavour"], "/threads" if sc["threads"] else ""), what, replay)
-    res["children"] = [(p, [list(x) for x in tr[:len(p) - 1]]) for p in fsx.children(rep["decisions"], len(job["prefix"]), sc["bound"])]
+    if sc.get("por"):
+        init_dirs = {cache} | {os.path.join(cache, r_) for r_, e_ in (init_snap or {}).items() if e_[0] == "d"}
+        steps_ = [s_ for s_ in rep["steps"] if s_.get("step") is not None]
+        res["children"] = [(p, [list(x) for x in tr[:len(p) - 1]], sl) for p, sl in fsx.children_sleep(rep["decisions"], steps_, len(job["prefix"]), job.get("sleep"), init_dirs)]
+    else:
+        res["children"] = [(p, [list(x) for x in tr[:len(p) - 1]], None) for p in fsx.children(rep["decisions"], len(job["prefix"]), sc["bound"])]
     res["nsteps"] = len(tr)
     res["sc_id"] = sc["id"]
     res["transitions"] += len(tr)
@@ -354,6 +379,7 @@ def main(tier, seed=0):
     agg = V.new()
     merr = []
     per_sc = {}
+    fps = {}
     capped = False
     budget = 240 if tier == "quick" else 6000
     try:
@@ -368,9 +394,11 @@ def main(tier, seed=0):
                     continue
                 _acc(agg, r)
                 for k, v in r["extra"].items():
-                    agg["extra"][k] = agg["extra"].get(k, 0) + v
-                for p_, e_ in r.get("children", []):
-                    nxt.append({"sc": by_id[r["sc_id"]], "prefix": p_, "expect": e_})
+                    if isinstance(v, list):
+                        fps.setdefault(k, set()).update(v)
+                    # numeric extras (outcome counts per scenario) are summed by _acc above
+                for p_, e_, sl_ in r.get("children", []):
+                    nxt.append({"sc": by_id[r["sc_id"]], "prefix": p_, "expect": e_, "sleep": sl_})
             # children are attached by id lookup below
             gen = nxt
             if time.time() - t0 > budget:
@@ -385,6 +413,20 @@ def main(tier, seed=0):
         if k.startswith("outcome:"):
             _, name, oc = k.split(":", 2)
             outcomes_per_sc.setdefault(name, {})[oc] = agg["extra"].pop(k)
+    for k in [k_ for k_ in agg["extra"] if k_.startswith("fp:")]:
+        agg["extra"].pop(k)     # _acc merges list-valued extras too; the sets are kept in fps
+    if fps:
+        val = {}
+        for k, v in sorted(fps.items()):
+            nm = k[3:]
+            if nm.endswith("/por") and ("fp:" + nm[:-4]) in fps:
+                full = fps["fp:" + nm[:-4]]
+                val[nm[:-4]] = {"distinct_results_brute_force": len(full), "distinct_results_reduced": len(v), "same_set": full == v}
+            elif not nm.endswith("/por") and ("fp:" + nm + "/por") not in fps:
+                val[nm] = {"distinct_results": len(v)}
+            elif nm.endswith("/por"):
+                val[nm] = {"distinct_results_reduced": len(v)}
+        agg["extra"]["por_validation"] = val
     single = sorted(n for n, o in outcomes_per_sc.items() if len(o) == 1)
     agg["extra"].update({"scenarios": len(scs), "serial_orders_per_scenario": outcomes_per_sc, "scenarios_with_one_outcome_only": single,
                          "preemption_bounds": sorted({str(s["bound"]) for s in scs})})
